@@ -23,7 +23,8 @@ def obligations(ctx):
                             if q and nn != 16 and key % 2:
                                 continue
                             path = 2 if key % 4 < 2 else 3
-                            obs.append(c01.prod_ob(t, path, nn, avx, rsz, asz, asl=nn + (key % 2), nrows=nrows, ncols=ncols))
+                            # stride of the coefficient-space input: N or N+1, chosen independently of the quick-tier thinning above
+                            obs.append(c01.prod_ob(t, path, nn, avx, rsz, asz, asl=nn + ((nrows + asz + ncols) % 2), nrows=nrows, ncols=ncols))
     # both entry points on the very same shape (apply from coefficients vs apply to the DFT of the same vector): same polynomial
     for nn in (4, 8):
         for (nrows, ncols, rsz, asz) in ((2, 3, 3, 2), (3, 2, 1, 3), (1, 1, 1, 1), (2, 5, 3, 1)):
